@@ -396,3 +396,103 @@ pub fn family(r: &mut Rng, which: usize) -> Key {
         _ => family_fmt(r),
     }
 }
+
+
+/// A *twin* of an item: same derive, same type name, same generics, same number of variants / fields —
+/// but other variant names, field names, field types or order. What a memo keyed too coarsely (by name,
+/// by name + arity, by span-less token shape) would confuse with the original.
+pub fn twin(key: &Key, r: &mut Rng) -> Option<Key> {
+    let mut di: syn::DeriveInput = syn::parse_str(&key.item).ok()?;
+    let how = r.below(5);
+    let fresh = |r: &mut Rng, upper: bool| -> syn::Ident {
+        let mut s = ident(r, if upper { "Q" } else { "q" });
+        if !upper {
+            s = s.to_lowercase();
+        }
+        syn::Ident::new(&s, proc_macro2::Span::call_site())
+    };
+    let retype = |r: &mut Rng, f: &mut syn::Field| {
+        if let Ok(t) = syn::parse_str::<syn::Type>(*r.pick(PRIMS)) {
+            f.ty = t;
+        }
+    };
+    let mut changed = false;
+    match &mut di.data {
+        syn::Data::Enum(e) => {
+            let n = e.variants.len();
+            if n == 0 {
+                return None;
+            }
+            match how {
+                0 | 1 => {
+                    // rename every variant (count kept)
+                    for v in e.variants.iter_mut() {
+                        v.ident = fresh(r, true);
+                    }
+                    changed = true;
+                }
+                2 => {
+                    let i = r.below(n);
+                    e.variants.iter_mut().nth(i).unwrap().ident = fresh(r, true);
+                    changed = true;
+                }
+                3 if n >= 2 => {
+                    // rotate the variants
+                    let mut vs: Vec<syn::Variant> = e.variants.iter().cloned().collect();
+                    vs.rotate_left(1);
+                    e.variants = vs.into_iter().collect();
+                    changed = true;
+                }
+                _ => {
+                    for v in e.variants.iter_mut() {
+                        for f in v.fields.iter_mut() {
+                            if r.chance(1, 2) {
+                                retype(r, f);
+                                changed = true;
+                            }
+                        }
+                    }
+                }
+            }
+        }
+        syn::Data::Struct(st) => {
+            let n = st.fields.len();
+            if n == 0 {
+                return None;
+            }
+            match how {
+                0 | 1 | 2 => {
+                    for f in st.fields.iter_mut() {
+                        if f.ident.is_some() && how != 2 {
+                            f.ident = Some(fresh(r, false));
+                            changed = true;
+                        } else if r.chance(1, 2) {
+                            retype(r, f);
+                            changed = true;
+                        }
+                    }
+                }
+                _ => {
+                    for f in st.fields.iter_mut() {
+                        if r.chance(1, 2) {
+                            retype(r, f);
+                            changed = true;
+                        }
+                    }
+                }
+            }
+        }
+        syn::Data::Union(_) => return None,
+    }
+    if !changed {
+        return None;
+    }
+    let item = di.to_token_stream().to_string();
+    if item == key.item {
+        return None;
+    }
+    Some(Key {
+        derive: key.derive.clone(),
+        item,
+    })
+}
